@@ -7,9 +7,11 @@ import json, os, shutil, subprocess, sys, time
 
 pid = sys.argv[1]
 extra = sys.argv[2:]
-src = "/tmp/seed-%s/OUT" % pid
+ROUND = os.environ.get("SEED_ROUND", "1")
+base = "/tmp/seed-%s" % pid if ROUND == "1" else "/tmp/seed%s-%s" % (ROUND, pid)
+src = base + "/OUT"
 wt = "/var/tmp/ioflo-seedtry-%s-%d" % (pid, os.getpid())
-out = "/verif/seeded/%s" % pid
+out = "/verif/seeded/%s" % pid if ROUND == "1" else "/verif/seeded/%s-%s" % (pid, ROUND)
 BASE_FAIL = {"testTLSConnectionVerifyBothTLSv1", "testTLSConnectionVerifyNeither", "testTcpClientServer",
              "testTcpClientServerService", "testTcpClientServerServiceCat"}
 
@@ -19,7 +21,7 @@ def sh(cmd, **kw):
 
 
 def demo(where):
-    d = open(os.path.join(src, "demo.py")).read().replace("/tmp/seed-%s" % pid, where)
+    d = open(os.path.join(src, "demo.py")).read().replace(base, where)
     p = os.path.join(where, "_demo_try.py")
     open(p, "w").write(d)
     r = sh("cd %s && /venv/bin/python -B -W ignore _demo_try.py" % where, timeout=600)
